@@ -47,6 +47,7 @@ func churnItems(thorough bool) []workItem {
 			{Name: "2db-n3-s3-rf2-depth5", Nodes: 3, DBs: []string{"a", "b"}, MaxShards: 3, MaxRF: 2, MaxDepth: 5, Workers: 15, Cost: 8},
 			{Name: "1db-n3-s1-rf2-lag1-depth11", Nodes: 3, DBs: []string{"a"}, MaxShards: 1, MaxRF: 2, Lag: 1, MaxDepth: 11, Workers: 5, Cost: 6},
 			{Name: "1db-n2-s2-rf2-lag1-depth11", Nodes: 2, DBs: []string{"a"}, MaxShards: 2, MaxRF: 2, Lag: 1, MaxDepth: 11, Workers: 6, Cost: 6},
+			{Name: "1db-n2-s1-rf2-lag1-failover-depth10", Nodes: 2, DBs: []string{"a"}, MaxShards: 1, MaxRF: 2, Lag: 1, MaxDepth: 10, Workers: 4, Cost: 6, Failover: true},
 		}
 	} else {
 		cfgs = []churnCfg{
